@@ -29,6 +29,19 @@ func (r *zzSplitReader) Read(p []byte) (int, error) {
 	return n, nil
 }
 
+// writer that counts Write calls: frames and responses are written by different
+// goroutines onto the same connection, so each element must be handed over in ONE
+// Write (otherwise another element can land in the middle of it)
+type zzCountingWriter struct {
+	buf    bytes.Buffer
+	writes int
+}
+
+func (w *zzCountingWriter) Write(p []byte) (int, error) {
+	w.writes++
+	return w.buf.Write(p)
+}
+
 var zzMethods = []base.Method{base.Announce, base.Describe, base.GetParameter, base.Options, base.Pause, base.Play, base.Record, base.Setup, base.SetParameter, base.Teardown}
 
 // C04 (dispatch between frames, responses and requests): a sequence of N
@@ -39,8 +52,8 @@ var zzMethods = []base.Method{base.Announce, base.Describe, base.GetParameter, b
 // the stream delivered byte by byte, or cut at every position into two reads.
 func ZzC04ConnSequence() {
 	N := zzParam("N", 2)
-	var wire bytes.Buffer
-	c := NewConn(nil, &wire)
+	wire := &zzCountingWriter{}
+	c := NewConn(nil, wire)
 	kinds := make([]int, N)
 	mis := make([]int, N)
 	chans := make([]int, N)
@@ -51,7 +64,7 @@ func ZzC04ConnSequence() {
 		b := zzU8("stray")
 		// a byte that cannot start an element
 		zzAssume(zzAnd(b != '$', zzAnd(b != 'R', zzAnd(b != 'A', zzAnd(b != 'D', zzAnd(b != 'G', zzAnd(b != 'O', zzAnd(b != 'P', zzAnd(b != 'S', b != 'T')))))))))
-		wire.WriteByte(b)
+		wire.buf.WriteByte(b)
 	}
 	for i := 0; i < N; i++ {
 		kinds[i] = zzConcretize(zzIntIn("kind", 0, 2))
@@ -67,7 +80,8 @@ func ZzC04ConnSequence() {
 			zzAssert(c.WriteInterleavedFrame(&base.InterleavedFrame{Channel: chans[i], Payload: pls[i]}, make([]byte, 16)) == nil, "frame written")
 		}
 	}
-	stream := wire.Bytes()
+	zzAssert(wire.writes == N, "every element is handed to the connection in exactly one Write")
+	stream := wire.buf.Bytes()
 	split := 0
 	if zzParam("SPLIT", 0) == 1 {
 		split = zzInt("split")
